@@ -852,6 +852,33 @@ func c10PartC(t *testing.T, o *vOut, rng *mrand.Rand, root string) {
 	o.Note("temp_files_left_by_killed_writers", temps)
 }
 
+// values of several MiB come back whole: every byte, sizes around the powers of two a
+// "defensive" read limit would sit at (sequential Store / Load / Stat on a FileStorage)
+func c10PartE(t *testing.T, o *vOut, root string) {
+	st := &FileStorage{Path: filepath.Join(root, "big")}
+	ctx := context.Background()
+	sizes := []int{1<<20 + 1, 2<<20 - 1, 2 << 20, 4<<20 - 1, 4 << 20, 4<<20 + 1, 5<<20 + 17, 8 << 20, 8<<20 + 1}
+	if vThorough() {
+		sizes = append(sizes, 16<<20, 16<<20+1, 33<<20+5)
+	}
+	for i, n := range sizes {
+		key := fmt.Sprintf("big/value-%d", i)
+		want := c10MkValue(1, i, n)
+		if err := st.Store(ctx, key, want); err != nil {
+			t.Fatalf("Store of %d bytes: %v", n, err)
+		}
+		got, err := st.Load(ctx, key)
+		if err != nil || !bytes.Equal(got, want) {
+			o.Mon("C10 big value-not-whole", map[string]any{"size": n, "returned": len(got), "error": fmt.Sprint(err)})
+		}
+		if info, err := st.Stat(ctx, key); err != nil || info.Size != int64(n) {
+			o.Mon("C10 big stat-size-wrong", map[string]any{"size": n, "stat": info.Size, "error": fmt.Sprint(err)})
+		}
+		st.Delete(ctx, key)
+		o.Stat("big_value_round_trips", 1)
+	}
+}
+
 func TestVerifC10(t *testing.T) {
 	o := vOpen(t, "C10")
 	defer o.Close()
@@ -867,6 +894,7 @@ func TestVerifC10(t *testing.T) {
 	c10PartB(t, o, rng, root)
 	t2 := time.Now()
 	c10PartD(t, o, rng, root)
+	c10PartE(t, o, root)
 	if vThorough() {
 		c10PartC(t, o, rng, root)
 	}
